@@ -7,6 +7,7 @@ import MagpyVerif.Lemmas.Tree
 import MagpyVerif.Lemmas.Angax
 import MagpyVerif.Lemmas.OctaCarrier
 import MagpyVerif.Lemmas.History
+import MagpyVerif.Lemmas.HistoryAddr
 namespace MagpyVerif.C09
 open MagpyVerif Gen Spec
 variable {G V : Type}
@@ -281,6 +282,20 @@ theorem paths_equal_length_always [Mul G] [Inv G] [One G] [SMul G V] [Add V] [Su
     refine ih _ (Node.hstep_inv sc t op h ?_) (fun a c hc => hadd a c (List.mem_cons_of_mem _ hc))
     intro a c hop
     exact hadd a c (by rw [hop]; exact List.mem_cons_self)
+
+/-- C09(m) **the common path length of a history in closed form**: a collection tree whose members share the path length
+`N ≥ 1`; any history over the full operation set with operations addressed to ANY node (an operation addressed to a
+descendant keeping the length: `AdmissibleAt`).  Afterwards every object of the tree has position and orientation paths of
+length exactly `histLen sc N ops` — the fold of the documented per-operation lengths (`Op.newLen`: the padding window's
+`newLen` for move / rotate / rotate_from_*, the input length for the setters, 1 for reset_path, unchanged for rejected calls,
+add, remove) — and that length is ≥ 1. -/
+theorem history_common_length [Group G] [AddCommGroup V] [DistribMulAction G V]
+    (sc : Scipy α G) (t : Node G V) (N : Nat) (hN : 1 ≤ N) (hU : t.UniformLen N) (ops : List (HOp α G V))
+    (hadm : AdmissibleAt sc N ops) :
+    (∀ d ∈ (ops.foldl (Node.hstep sc) t).objs, d.pos.length = histLen sc N ops ∧ d.ori.length = histLen sc N ops) ∧
+    1 ≤ histLen sc N ops ∧ (ops.foldl (Node.hstep sc) t).All Obj.Inv := by
+  obtain ⟨_, h2, h3⟩ := absH_history sc ops t N hN hU hadm
+  exact ⟨h2, h3, Node.uniform_all_inv h3 h2⟩
 
 -- non-vacuity: scipy's shape rule as modelled — one angle for a one-letter sequence and W angles for W letters are ONE
 -- rotation, an (n, W) array is n rotations; a 1-D array of n angles for a one-letter sequence is n rotations (the
